@@ -79,6 +79,7 @@ def check(repo: Repo, R) -> None:
     from . import c18 as _c18
     R.run(_c18.check, repo, shared.Retag(R, lambda r, k: "C04.7-displaced-instance-disowned" if r.startswith("C18.1") and k.startswith("hdl21/module.py") else None,
                                         "an instance replaced by a new one of the same name stays in the module's books with its old connections: the port references it fed still resolve through it"))
+    R.run(bundle_backrefs_of_held_instances, repo, R)
     R.floor("C04.1-conns-backref-pairing", 6)
     R.floor("C04.3-one-ref-per-port", 4)
     R.floor("C04.4-snapshot-iteration", 3)
@@ -351,3 +352,35 @@ def funnels(repo: Repo, R):
         ok = {"conns", "connect", "disconnect", "replace", "name", "of"} <= names
         R.check(ok, rule, f"{F_INSTANCE}::{cls}._specialcases", c.site, f"{cls} exempts conns/connect/disconnect/replace/name/of from port magic: {ok}",
                 why=f"`{cls.lower()}.replace` / `.conns` become port references instead of the API")
+
+
+def bundle_backrefs_of_held_instances(repo: Repo, R):
+    """A bundle (or bundle reference) lists the ports connected to it — also those of instances the module no longer holds
+    (displaced by another object of the name, consumed by `n * inst`).  Flattening re-connects only the ports of held ones."""
+    rule = "C04.6-last-connection-resolved"
+    n = 0
+    # either every loop restricts itself to held instances, or the re-connection itself declines an instance that is in no module
+    frc = repo.func(F_FLATB, "BundleFlattener.replace_bundle_conn")
+    ia = frc.node.args.args[1].arg
+    declines = shared.conds_imply([(shared.parse_cond(f"{ia}._parent_module is None"), True)], [(shared.parse_cond(f"{ia}._parent_module is None"), True)]) is True and any(
+        isinstance(x, ast.Attribute) and x.attr in ("connect", "disconnect") for x in ast.walk(frc.node)) and all(
+        any(ast.unparse(t) == f"{ia}._parent_module is None" and pol is False for t, pol in shared.path_conditions(frc.node, c)) for c in au.calls_in(frc.node) if isinstance(c.func, ast.Attribute) and c.func.attr in ("connect", "disconnect") and ast.unparse(c.func.value) == ia)
+    for fi in repo.funcs_in(F_FLATB):
+        for lp in [x for x in au.walk_no_nested(fi.node) if isinstance(x, ast.For) and "_connected_ports" in ast.unparse(shared.prov(fi.node, x.iter))]:
+            calls = [c for c in au.calls_in(lp) if ast.unparse(c.func) == "self.replace_bundle_conn"]
+            if not calls:
+                continue
+            n += 1
+            tv = ast.unparse(lp.target)
+            held = all(any(isinstance(t, ast.Compare) and len(t.ops) == 1 and isinstance(t.ops[0], ast.Is) and pol and f"{tv}.inst._parent_module" in (ast.unparse(t.left), ast.unparse(t.comparators[0])) for t, pol in shared.path_conditions(fi.node, c)) for c in calls)
+            if not held:
+                # ... or the list walked is already restricted to them by a helper of the file
+                for c in [x for x in ast.walk(lp.iter) if isinstance(x, ast.Call)]:
+                    callee = repo.resolve_call(c, fi)
+                    if isinstance(callee, FuncInfo) and "_parent_module is" in ast.unparse(callee.node):
+                        held = True
+            held = held or declines
+            R.check(held, rule, key_of(fi, "reconnects-held-instances-only"), fi.at(lp), f"{fi.name} re-connects the flattened bundle only to ports of instances the module holds: {held}",
+                    why="`m.i = A(bp=m.b); m.i = A2(bp2=m.b)`: the displaced first instance is still listed by the bundle; flattening re-connects it against its never-flattened module and the valid design is refused (`Invalid Port Connection to bp`)")
+    if n < 2:
+        raise AnalysisError(f"anchor-vanished: {n} re-connection loop(s) over `_connected_ports` in {F_FLATB}; 2 were confirmed by reading")
